@@ -14,6 +14,7 @@ Every operation that can raise in CPython raises the corresponding exception sym
 from __future__ import annotations
 
 import ast
+import os
 import builtins
 import collections
 import copy as _copy
@@ -110,6 +111,28 @@ class PathCut(Exception):
 
 class Unsupported(UnsupportedOp):
     """construct outside the supported subset: the function's obligations become undecided"""
+
+
+SECOND_OPINION = os.environ.get("PYVC_SECOND_OPINION") == "1"
+CVC5 = "/usr/bin/cvc5"
+
+
+def second_opinion(smt2, stats, tlimit_ms=4000):
+    """run cvc5 on a query z3 found unsat; returns 'unsat' | 'sat' | 'none' (no verdict)"""
+    import subprocess
+
+    so = stats.second
+    try:
+        p = subprocess.run([CVC5, "--lang=smt2", "--tlimit=%d" % tlimit_ms, "--full-saturate-quant"],
+                           input="(set-logic ALL)\n" + smt2, capture_output=True, text=True, timeout=tlimit_ms / 1000.0 + 5)
+        out = p.stdout.strip().splitlines()
+        v = out[0].strip() if out else "none"
+    except Exception:  # noqa
+        v = "none"
+    if v not in ("sat", "unsat"):
+        v = "none"
+    so[v] = so.get(v, 0) + 1
+    return v
 
 
 class Phi(object):
@@ -269,6 +292,7 @@ class Stats(object):
         self.paths = 0
         self.fd_checks = 0
         self.fd = {}
+        self.second = {}
 
 
 # --------------------------------------------------------------------------------------------
@@ -276,10 +300,13 @@ class Stats(object):
 
 
 class PathState(object):
-    def __init__(self, engine, trace):
+    def __init__(self, engine, trace, fresh=True):
         from .sym import reset_fd
 
-        reset_fd()
+        if fresh:
+            # a new path starts from an empty finite-domain universe; the auxiliary state used
+            # while a module is loaded in the middle of a path must not wipe the path's nodes
+            reset_fd()
         self.engine = engine
         self.trace = list(trace)
         self.pos = 0
@@ -400,6 +427,12 @@ class PathState(object):
                     r = z3.unknown
                 else:
                     model = self.solver.model()
+            elif r == z3.unsat and SECOND_OPINION:
+                # thorough tier: every unsat verdict (discharged obligation or pruned path) is
+                # put to cvc5 as well; a contradiction makes the verdict unknown
+                v = second_opinion(self.solver.to_smt2(), self.engine.stats)
+                if v == "sat":
+                    r = z3.unknown
         finally:
             self.solver.pop()
         dt = time.time() - t0
@@ -654,7 +687,7 @@ class Engine(object):
             raise Unsupported("unknown repo module %s" % name)
         self.loading.add(name)
         tree = self.src.ast_of(name)
-        st = PathState(self, [])
+        st = PathState(self, [], fresh=False)
         frame = Frame(None, env.globals)
         env.globals["__name__"] = "cvss." + name
         try:
